@@ -116,7 +116,7 @@ fn rewrite_cfg_tokens(ts: TokenStream, n: &mut usize) -> TokenStream {
     let lit = |truth: bool| -> TokenStream { if truth { "all()" } else { "any()" }.parse().unwrap() };
     while i < toks.len() {
         match &toks[i] {
-            TokenTree::Ident(id) if id == "feature" && i + 2 < toks.len() + 0 && matches!(&toks[i + 1], TokenTree::Punct(p) if p.as_char() == '=') => {
+            TokenTree::Ident(id) if id == "feature" && i + 2 < toks.len() && matches!(&toks[i + 1], TokenTree::Punct(p) if p.as_char() == '=') => {
                 let name = toks[i + 2].to_string();
                 let name = name.trim_matches('"');
                 out.extend(lit(ENABLED_FEATURES.contains(&name)));
